@@ -703,6 +703,7 @@ class Dialog:
         self.turi = g.pick(["sip:svc.test", "sip:bob@svc.test", "urn:service:sos", self.furi if g.chance(0.25) else "sip:carol@svc.test"])
         self.backend = None
         self.pinned = False
+        self.pin_at = 0
         self.kind = g.pick(["invite", "invite", "invite", "subscribe"])
         self.cseq = g.rint(1, 100)
 
@@ -761,7 +762,40 @@ def gen_dialog_case(g, tier, c17=None):
             exp = exp + ["spec=C17 %s %s.%d" % (c17[0], c17[1], evn)]
         evn += 1
         ops.append("pipe raw p=0 from=%s peer=%s port=%d tcp=- rx=0 msg=%s" % (lst.tok(), hx(peer), port, hx(data)) + "".join(" # " + e for e in exp))
+    now = [0]          # virtual clock of the case, seconds (`pipe pinwait`); every binding lives between 1200 s (the dialog
+                       # timeout) and 7200 s (the largest Expires an establishing response carries here)
+    pairs = [0]
+
+    def lb_pair(d, why):
+        """two consecutive requests of a dialog that is not bound (any more): load-balanced like new ones, so - strict
+        rotation over >= 2 backends, nothing in between - they reach two DIFFERENT backends; a binding that is still
+        honoured sends both to the same one"""
+        pairs[0] += 1
+        tag = "lb%d" % pairs[0]
+        for k in range(2):
+            via = Via("UDP", ua_ip, w.port_ua, [("branch", "z9hG4bK" + g.word(ALNUM.upper(), 6, 9))])
+            m = dialog_msg(c, g, g.pick(["INFO", "MESSAGE", "UPDATE", "OPTIONS"]), g.pick(["sip:svc.test", "sip:bob@svc.test"]), d, g.chance(0.5), vias=[via])
+            raw(m, ua_ip, w.port_ua, ["spec=C04 " + expect_dest("B", None, w.backends[0]),
+                                      ("spec=C15 remember %s" % tag) if k == 0 else ("spec=C15 destdiffers %s" % tag)])
+        g.count("dlg_lb_pair_" + why)
     for _ in range(steps):
+        bound = [x for x in ds if x.pinned]
+        if bound and g.chance(0.05):
+            # more time passes than any binding lives: every binding made so far has lapsed
+            ops.append("pipe pinwait p=0 %d" % g.pick([7300, 8000, 100000]))
+            now[0] += 100000
+            for x in bound:
+                x.pinned = False
+            g.count("dlg_all_bindings_lapsed")
+            lb_pair(g.pick(bound), "after_lifetime")
+            continue
+        if bound and g.chance(0.08) and all(now[0] + 300 - x.pin_at < 1100 for x in bound):
+            # a little time passes: every binding is still inside its lifetime
+            wsec = g.pick([30, 200, 300])
+            ops.append("pipe pinwait p=0 %d" % wsec)
+            now[0] += wsec
+            g.count("dlg_short_wait")
+            continue
         d = g.pick(ds)
         svc_ru = g.pick(["sip:svc.test", "sip:bob@svc.test", "urn:service:sos"])
         ua_via = Via("UDP", ua_ip, w.port_ua, [("branch", "z9hG4bK" + g.word(ALNUM.upper(), 6, 9))])
@@ -785,7 +819,7 @@ def gen_dialog_case(g, tier, c17=None):
                 back = ua_via.stamped(ua_ip, w.port_ua)
                 r = dialog_resp(c, g, code, "INVITE", d, [own, back], extra=[(spell(g, "Expires", g.sp_pick([0, 2, 3, 4])), g.pick(["0", "60", "7200", "0600", "+90", "007", "3600 ", "1e3", "x"]))] if g.chance(0.5) else None)
                 raw(r, bip, int(bport), ["spec=C02 " + expect_dest("U", "%s:%d" % (ua_ip, w.port_ua)), "spec=C01 relay"])
-                d.pinned = True
+                d.pinned = True; d.pin_at = now[0]
                 g.count("dlg_invite_pinned")
             else:
                 # SUBSCRIBE issued by a backend towards a UA, answered by the UA: the response travels towards the backend
@@ -796,7 +830,7 @@ def gen_dialog_case(g, tier, c17=None):
                 d.cseq += 1
                 r = dialog_resp(c, g, g.pick([200, 202]), "SUBSCRIBE", d, [own, bvia], extra=[("Expires", g.pick(["0600", "+90", "3600", "0", "0"]))] if g.chance(0.5) else None)
                 raw(r, ua_ip, w.port_ua, ["spec=C02 " + expect_dest("U", d.backend), "spec=C01 relay"])
-                d.pinned = True
+                d.pinned = True; d.pin_at = now[0]
                 g.count("dlg_subscribe_pinned")
             continue
         # in-dialog request, either direction, any method
@@ -808,6 +842,11 @@ def gen_dialog_case(g, tier, c17=None):
             ss = g.pick(["active;expires=60", "active", "terminated", "pending"])
             extra = [(spell(g, "Subscription-State", g.sp_pick([0, 2, 3, 4])), ss)]
             terminate = (ss == "terminated")
+        if method in ("SUBSCRIBE", "INVITE", "UPDATE", "REFER", "NOTIFY", "MESSAGE") and g.chance(0.3):
+            # an Expires header on a REQUEST inside the dialog (refreshing SUBSCRIBE, session refresh) promises nothing about
+            # the binding: its lifetime was fixed by the response that established it
+            extra = extra + [(spell(g, "Expires", g.sp_pick([0, 2, 3, 4])), g.pick(["100000", "60", "3600", "2147483647", "86400"]))]
+            g.count("dlg_indialog_request_with_expires")
         m = dialog_msg(c, g, method, svc_ru, d, from_caller, extra=extra, vias=[ua_via])
         if d.pinned and g.chance(0.08):
             # the backend the dialog is bound to cannot be reached at the moment: the request goes nowhere else
@@ -825,6 +864,9 @@ def gen_dialog_case(g, tier, c17=None):
             raw(m, ua_ip, w.port_ua, ["spec=C04 " + expect_dest("B", None, w.backends[0])])
             g.count("dlg_after_termination")
         if terminate:
+            if d.pinned and g.chance(0.5):
+                d.pinned = False
+                lb_pair(d, "after_termination")
             d.pinned = False
         if method == "INVITE" and d.pinned and g.chance(0.7):
             # the pinned backend answers the re-INVITE, possibly with a rejection: the dialog lives on
@@ -833,6 +875,7 @@ def gen_dialog_case(g, tier, c17=None):
             back = ua_via.stamped(ua_ip, w.port_ua)
             r = dialog_resp(c, g, g.pick([200, 491, 488, 403, 100, 180]), "INVITE", d, [own, back])
             raw(r, bip, int(bport), ["spec=C02 " + expect_dest("U", "%s:%d" % (ua_ip, w.port_ua))])
+            d.pin_at = now[0]          # an answer with both tags binds again: a new lifetime starts
             g.count("dlg_reinvite_answered")
         if method == "BYE" and d.pinned and g.chance(0.7):
             # the backend answers the BYE (any final status): the pin dissolves
